@@ -63,6 +63,11 @@ where
     let mut before_block = quote! {};
     for happen_before in happen_befores {
         let fragment = &blocks[&happen_before];
+        // A node whose output has been bound to a variable has already run, where that variable
+        // was introduced: there is nothing to inline here.
+        if let Fragment::VariableReference(_) = fragment {
+            continue;
+        }
         before_block = quote! {
             #before_block
             #fragment;
